@@ -157,7 +157,7 @@ def run(rep: Report, rng, tier: str, known: dict, search: bool = False) -> None:
 def evidence(rep: Report) -> None:
     write_evidence(
         rep,
-        rule="cases = (expression, variable, point supplying all variables); every numeric route, early and late, is compared with Expression.at at the same point (DomainError iff DomainError) and with the model; expressions: every kind of undefined sub-tree (incl. variable-free ones) planted where a rule could skip it (exponent of a base that evaluates to one in 4 spellings, zero factor in any position, zero numerator, Exponential base 1, n = 1 powers/roots, x - x factor), plus rule-directed and random trees; non-trivial = contains a constrained node; distinct by (wire, point, variable)",
+        rule="cases = (expression, variable, point supplying all variables); every numeric route, early and late, is compared with Expression.at at the same point (DomainError iff DomainError) and with the model; expressions: every kind of undefined sub-tree (incl. variable-free ones) planted where a rule could skip it (exponent of a base that evaluates to one in 4 spellings, zero factor in any position, zero numerator, Exponential base 1, n = 1 powers/roots, x - x factor), plus rule-directed and random trees; non-trivial = contains a constrained node; distinct by (wire, point, variable); plus warm sequences (the route's own object asked before at this and at another point, the expression evaluated elsewhere in between), vanishing products",
         trusted=common.TRUSTED,
         assumptions=[common.ASSUME_RANGE, "K1 (recorded finding) reported as KNOWN-FINDING when its signature matches"],
     )
